@@ -54,6 +54,20 @@ def _exportable_ws(rng, tag):
     ws = specs.gen_workspace(rng, max_channels=2, max_samples=2, max_bins=3, exportable=True, n_meas=(1, 3),
                              mods=rng.sample(specs.ALL_MODS, rng.randint(3, 7)),
                              name_prefix=rng.choice(["", "", "", "μ_", "a_", "pl", "h_", "_", "Gamma_"]))   # names are free text
+    # negative yields are legal input (interference templates, subtracted fakes) as long as the channel total stays positive
+    if rng.random() < 0.2:
+        c = rng.choice(ws["channels"])
+        if len(c["samples"]) > 1:
+            s_ = rng.choice([x for x in c["samples"] if x["name"] != "signal"] or c["samples"][1:])
+            b = rng.randrange(len(s_["data"]))
+            others = sum(x["data"][b] for x in c["samples"] if x is not s_)
+            if others > 3:
+                f = -round(rng.uniform(0.1, 0.5) * others, 3) / s_["data"][b]
+                s_["data"][b] = round(s_["data"][b] * f, 3)
+                for m in s_["modifiers"]:
+                    if m["type"] == "histosys":
+                        m["data"]["hi_data"][b] = round(m["data"]["hi_data"][b] * f, 3)
+                        m["data"]["lo_data"][b] = round(m["data"]["lo_data"][b] * f, 3)
     # staterror may carry any name in JSON (the format renames it)
     if rng.random() < 0.4:
         for c in ws["channels"]:
